@@ -37,7 +37,9 @@ def nontrivial(tr):
 
 
 def check(ctx, case):
+    # the values of vector / matrix expressions do not depend on the optimisation setting either
     c01.check_case(ctx, case, prop="C04", nontrivial=nontrivial, extra_labels=VEC_NOTES, check_args=True)
+    c01.check_case(ctx, case, prop="C04", nontrivial=nontrivial, extra_labels=VEC_NOTES, check_args=True, optimize=True)
 
 
 def _vals(comp, n, base=1):
